@@ -3,6 +3,8 @@
 import json, glob, os, re
 rows = []
 for d in sorted(glob.glob('/verif/seeded/*/')):
+    if not os.path.exists(d + 'meta.json'):
+        continue
     m = json.load(open(d + 'meta.json'))
     name = os.path.basename(d.rstrip('/'))
     cq = m['confirmed_by_lead']['checks_quick']
